@@ -113,3 +113,16 @@ package expressions
 //@   check none
 //@   requires tree != nil && tree.p != nil && tree.p.Variables != nil
 //@   ensures imp(strOrVal == 0 && result2 == nil, typeis(result, string) && unbox(result, string) == $crlf($varString(tree.p.Variables, nameS)))
+
+// The same progress step in parseSubExpression ($name.( ... ) and %[( ... forms).
+//@ func (*ParserT).parseSubExpression [C20 C19]
+//@   scope functional
+//@   check none
+//@   requires tree != nil
+//@   at store charPos#2 assert branch.charPos >= 0
+
+// NewParser allocates a new parser object (never one the caller already holds).
+//@ func NewParser [C20]
+//@   fresh
+//@   modifies nothing
+//@   ensures result != nil && fresh(result)
